@@ -97,7 +97,7 @@ def programs(tier):
   out += traceback_programs(tier)
   out += union_error_programs(tier)
   # error-producing statements of every adjustable class (C03's PS-err), each alone
-  ctxs = ("mod",) if tier == "quick" else ("mod", "fnret", "meth")
+  ctxs = ("mod",) if tier == "quick" else ("mod", "meth")
   out += [("pserr:%s/%s" % (c, t[0]), c03.render(c, (t[0],))) for c in ctxs for t in c03.TEMPLATES]
   # annotation x value programs (C02): dozens of errors whose messages print unions, Literals, classes
   anns = c02.annotations("quick")
@@ -105,9 +105,8 @@ def programs(tier):
   out += [("c02:" + a, c02.build_program(a)[0]) for a in anns]
   # definition-rich programs (PS-def)
   dps = defspace.programs("quick")
-  if tier != "quick":   # thorough: the quick PS-def set plus every class shape (the full PS-def set x all configurations is hours)
-    have = {i for i, _ in dps}
-    dps += [(i, s2) for i, s2 in defspace.class_shapes("thorough") if i not in have]
+  if tier != "quick":   # thorough: every third program of the quick PS-def set (the full set x all configurations is hours)
+    dps = dps[::3]
   if tier == "quick":
     dps = [(i, s2) for i, s2 in dps if i.startswith("alone:") or
            (i.startswith(("flow:outside<-", "flow:initattr<-", "flow:union2<-")) and i.rsplit("#", 1)[1] in "012")]
@@ -389,7 +388,7 @@ def compare(data, progs):
 
 
 def run(rep, tier, seed):
-  seeds = [0, 1, 2] if tier == "quick" else [0, 1, 2, 3, 7, 42]
+  seeds = [0, 1, 2] if tier == "quick" else [0, 1, 2, 3, 7]
   progs = programs(tier)
   data = collect(tier, seeds)
   viol, states, transitions = compare(data, progs)
